@@ -418,10 +418,13 @@ namespace irx {
         if (!T->isIntegerTy() || all_uninit) {
           // reading indeterminate memory: the value is arbitrary (fresh symbol); counted
           st.uninit_reads++;
-          if (T->isPointerTy()) { Val pv = Val::mk_ptr(0, 0); pv.undef = true; return pv; }
-          if (T->isFloatingPointTy()) { Val fv = symfp(ctx.real_const(("uninit_f" + std::to_string(fresh_counter++)).c_str())); fv.undef = true; return fv; }
+          // (code of the translated Fortran reference - functions named ref_* - is an oracle, not the subject: an uninitialised
+          //  read there yields an ordinary arbitrary value)
+          const bool oracle = !stack.empty() && stack.back().F->getName().startswith("ref_");
+          if (T->isPointerTy()) { Val pv = Val::mk_ptr(0, 0); pv.undef = !oracle; return pv; }
+          if (T->isFloatingPointTy()) { Val fv = symfp(ctx.real_const(("uninit_f" + std::to_string(fresh_counter++)).c_str())); fv.undef = !oracle; return fv; }
           Val fv = symint(ctx.bv_const(("uninit_i" + std::to_string(fresh_counter++)).c_str(), T->getIntegerBitWidth()), T->getIntegerBitWidth());
-          fv.undef = true;
+          fv.undef = !oracle;
           return fv;
         }
         // partially initialised integer (struct copies through padding): only the indeterminate bytes are arbitrary
